@@ -369,7 +369,11 @@ func (c *coordinator) computeNewAssignments() {
 			}
 		}
 
-		c.assignments.Namespaces[name] = nsAssignments
+		if len(nsAssignments.Assignments) > 0 {
+			// a namespace without a live shard (all of them being deleted) is not published:
+			// clients get namespace-not-found instead of an empty shard map
+			c.assignments.Namespaces[name] = nsAssignments
+		}
 	}
 
 	c.assignmentsChanged.Broadcast()
